@@ -6,7 +6,7 @@ import os, json, glob, itertools, time
 from concurrent.futures import ThreadPoolExecutor
 
 ID = 'C14'
-COQ_ROOTS = ['Props/C14.v', 'Props/C14_session.v', 'GenProps/Framing_consts.v']
+COQ_ROOTS = ['Props/C14.v', 'Props/C14_session.v', 'GenProps/Framing_consts.v', 'GenProps/Writer_consts.v', 'GenProps/Session_consts.v']
 ALPHABET = [b'\n', b'#', b'0', b'1', b'9', b']', b'>', b'a', b'<']
 RULE = ('Parser level, both framing versions. (1) Mutation grammar over valid frame sequences: chunk header with a non-digit / '
         'missing # / missing LF / CRLF / huge size / size off by +-1 / size 0 / leading zeros / an invalid UTF-8 octet inside, '
